@@ -125,6 +125,41 @@ func checkC10(r *Run) {
 	r.Rule("C10.R1.mirror", "each forward/backward pair of unary.Iterator agrees item by item (guards, view updates, domain-iterator calls) under the time mirror", 3)
 	r.Rule("C10.R2.dispatch", "streamIterator.exec maps each iterator command to the unary.Iterator method of the same name, for every command validateIteratorCommand accepts", 8)
 
+	r.Rule("C10.R3.bounds", "unary.Iterator.SetBounds stores the new range and hands that same range to the domain iterator: the unary layer cuts views with i.bounds while the domain iterator seeks and filters with its own copy, so the two must be the range just given", 2)
+	if sb := p.Func(unaryPkg, "Iterator", "SetBounds"); sb != nil {
+		tr := paramObj(sb, 0)
+		bounds := p.FieldOf(unaryPkg, "Iterator", "bounds")
+		isNew := func(e ast.Expr) bool {
+			if tr != nil && objOf(sb, e) == tr {
+				return true
+			}
+			sel, ok := ast.Unparen(e).(*ast.SelectorExpr)
+			return ok && bounds != nil && fieldVar(sb, sel) == bounds
+		}
+		stored, handed, nCalls := false, true, 0
+		inspectNoLit(sb.Body, func(x ast.Node) bool {
+			switch v := x.(type) {
+			case *ast.AssignStmt:
+				if len(v.Lhs) == 1 && len(v.Rhs) == 1 {
+					if sel, ok := ast.Unparen(v.Lhs[0]).(*ast.SelectorExpr); ok && bounds != nil && fieldVar(sb, sel) == bounds {
+						stored = tr != nil && objOf(sb, v.Rhs[0]) == tr
+					}
+				}
+			case *ast.CallExpr:
+				if f := CalleeFunc(sb, v); f != nil && f.Name() == "SetBounds" && f != sb.Obj && len(v.Args) == 1 {
+					nCalls++
+					if !isNew(v.Args[0]) {
+						handed = false
+					}
+				}
+			}
+			return true
+		})
+		r.Ob("C10.R3.bounds", "unary.Iterator.SetBounds stores its argument in i.bounds", p.Position(sb.Pos()), stored, "")
+		r.Ob("C10.R3.bounds", "unary.Iterator.SetBounds hands the new range to the domain iterator", p.Position(sb.Pos()), handed && nCalls == 1, fmt.Sprintf("%d SetBounds call(s) on the domain iterator; argument is the new range: %v (a range read from the open-time configuration leaves the domain iterator on the old bounds)", nCalls, handed))
+	} else {
+		r.Undecide("C10.R3: unary.Iterator.SetBounds not found")
+	}
 	for _, pair := range [][2]string{{"Next", "Prev"}, {"SeekFirst", "SeekLast"}, {"SeekLE", "SeekGE"}} {
 		f, b := p.Func(unaryPkg, "Iterator", pair[0]), p.Func(unaryPkg, "Iterator", pair[1])
 		if f == nil || b == nil {
